@@ -182,6 +182,11 @@ def order_items(cols, roles):
         for rv in ([], list(ks)):
             for lim in (None, 1, 2):
                 items.append({"op": "order_rows", "columns": ks, "reverse": rv, "limit": lim})
+    if len(N) > 1:
+        # two order columns listed against the table's column order, one of them reversed
+        for lim in (None, 2):
+            items.append({"op": "order_rows", "columns": [N[1], N[0]], "reverse": [], "limit": lim})
+            items.append({"op": "order_rows", "columns": [N[1], N[0]], "reverse": [N[0]], "limit": lim})
     if keys:
         # a limit of zero is legal (and falsy)
         items.append({"op": "order_rows", "columns": keys[0], "reverse": [], "limit": 0})
@@ -194,9 +199,13 @@ E2_HIST = {"table": "e", "steps": [{"op": "select_rows", "expr": O(">", C("w"), 
 E3_HIST = {"table": "e", "steps": [{"op": "project", "ops": {"w": M("max", C("w"))}, "group_by": ["g"]}]}
 
 
+E4_HIST = {"table": "e", "steps": [{"op": "rename_columns", "map": {"k": "g"}}]}
+
+
 def join_items(cols, roles, depth, jointypes=("INNER", "LEFT", "RIGHT", "FULL", "CROSS"), rights=None, self_join=True):
     K, N = _pick(cols, roles)
     items = []
+    default_rights = rights is None
     if rights is None:
         rights = [E_HIST, E1_HIST]
     for b in rights:
@@ -212,6 +221,11 @@ def join_items(cols, roles, depth, jointypes=("INNER", "LEFT", "RIGHT", "FULL", 
             items.append({"op": "natural_join", "b": b, "on": [[common_keys[0], common_keys[0]]], "jointype": "LEFT"})
             items.append({"op": "natural_join", "b": b, "on": [], "jointype": "LEFT"})
             items.append({"op": "natural_join", "b": b, "on": [], "jointype": "INNER"})
+    if default_rights and K and "k" not in cols:
+        # differently named keys: the right key column stays in the result
+        for jt in jointypes:
+            if jt != "CROSS":
+                items.append({"op": "natural_join", "b": E4_HIST, "on": [[K[0], "k"]], "jointype": jt})
     if self_join and depth >= 1 and K:
         # the state's own earlier prefix, as the *same object* (shared sub-DAG)
         for p in sorted({0, depth - 1}):
